@@ -45,6 +45,7 @@ type Object struct {
 	ch    *ChanData
 	ctx   *CtxData
 	label string
+	typ   types.Type // static element type of an ssa.Alloc (nil for other objects); not part of the state hash
 }
 
 type Deferred struct {
